@@ -440,6 +440,136 @@ theorem Mixer.refines (hC : C.LenPres) (ibs : Nat) (m : Mixer α S E P) (hm : Mi
   · unfold Mixer.spec MainTrk.spec
     exact ⟨hm.temp, hm.main, hct, hm.pending, specSends_inputs_clean C dt info ibs n _ hlen', hm.pendingSends⟩
 
+/-! ### `Clean` is an invariant of everything else that happens to a mixer -/
+
+theorem Trk.readCommands_temp (d : TrkData α S E P) : (Trk.readCommands d).temp = d.temp := by
+  unfold Trk.readCommands Trk.publish; dsimp only
+  split <;> split <;> rfl
+
+theorem Trk.onStart_clean (ibs : Nat) (t : Trk α S E P) : Trk.Clean ibs t → Trk.Clean ibs (Trk.onStart C t) := by
+  refine Trk.rec (motive_1 := fun t => Trk.Clean ibs t → Trk.Clean ibs (Trk.onStart C t))
+    (motive_2 := fun ts => Trk.CleanList ibs ts →
+      Trk.CleanList ibs (Trk.onStartKept C ts) ∧ Trk.CleanList ibs (Trk.onStartList C ts)) ?_ ?_ ?_ t
+  · intro d children pending ihc ihp h
+    obtain ⟨hd, hc, hp⟩ := h
+    rw [Trk.onStart, Trk.Clean]
+    refine ⟨by simp only [Trk.readCommands_temp, hd], ?_, trivial⟩
+    rw [Trk.cleanList_append, Trk.cleanList_reverse]
+    exact ⟨(ihp hp).2, (ihc hc).1⟩
+  · intro _; simp [Trk.onStartKept, Trk.onStartList, Trk.CleanList]
+  · intro t ts iht ihts h
+    obtain ⟨ht, hts⟩ := h
+    rw [Trk.onStartKept, Trk.onStartList]
+    refine ⟨?_, iht ht, (ihts hts).2⟩
+    split
+    · exact (ihts hts).1
+    · exact ⟨iht ht, (ihts hts).1⟩
+
+theorem Trk.onStartLists_clean (ibs : Nat) (ts : List (Trk α S E P)) (h : Trk.CleanList ibs ts) :
+    Trk.CleanList ibs (Trk.onStartKept C ts) ∧ Trk.CleanList ibs (Trk.onStartList C ts) := by
+  induction ts with
+  | nil => simp [Trk.onStartKept, Trk.onStartList, Trk.CleanList]
+  | cons t ts ih =>
+    obtain ⟨ht, hts⟩ := h
+    rw [Trk.onStartKept, Trk.onStartList]
+    refine ⟨?_, Trk.onStart_clean C ibs t ht, (ih hts).2⟩
+    split
+    · exact (ih hts).1
+    · exact ⟨Trk.onStart_clean C ibs t ht, (ih hts).1⟩
+
+theorem Mixer.onStart_clean (ibs : Nat) (m : Mixer α S E P) (h : Mixer.Clean ibs m) :
+    Mixer.Clean ibs (m.onStart C) := by
+  unfold Mixer.onStart
+  refine ⟨h.temp, h.main, ?_, trivial, ?_, by simp⟩
+  · rw [Trk.cleanList_append, Trk.cleanList_reverse]
+    exact ⟨(Trk.onStartLists_clean C ibs _ h.pending).2, (Trk.onStartLists_clean C ibs _ h.subs).1⟩
+  · intro s hs
+    simp only [removeAndAdd, List.mem_map, List.mem_append, List.mem_reverse, List.mem_filter] at hs
+    obtain ⟨s0, hs0, rfl⟩ := hs
+    unfold SendTrk.onStart
+    rcases hs0 with hs0 | hs0
+    · exact h.pendingSends s0 hs0
+    · exact h.sends s0 hs0.1
+
+/-- a handle operation that leaves the scratch buffers alone keeps the tree clean, wherever the track is -/
+theorem Trk.mapAt_clean (ibs id : Nat) (f : Trk α S E P → Trk α S E P)
+    (hf : ∀ t, Trk.Clean ibs t → Trk.Clean ibs (f t)) (t : Trk α S E P) :
+    Trk.Clean ibs t → Trk.Clean ibs (Trk.mapAt id f t) := by
+  refine Trk.rec (motive_1 := fun t => Trk.Clean ibs t → Trk.Clean ibs (Trk.mapAt id f t))
+    (motive_2 := fun ts => Trk.CleanList ibs ts → Trk.CleanList ibs (Trk.mapAtList id f ts)) ?_ ?_ ?_ t
+  · intro d children pending ihc ihp h
+    rw [Trk.mapAt]
+    split
+    · exact hf _ h
+    · obtain ⟨hd, hc, hp⟩ := h
+      exact ⟨hd, ihc hc, ihp hp⟩
+  · intro _; simp [Trk.mapAtList, Trk.CleanList]
+  · intro t ts iht ihts h
+    rw [Trk.mapAtList]; exact ⟨iht h.1, ihts h.2⟩
+
+theorem Trk.mapAtList_clean (ibs id : Nat) (f : Trk α S E P → Trk α S E P)
+    (hf : ∀ t, Trk.Clean ibs t → Trk.Clean ibs (f t)) (ts : List (Trk α S E P)) (h : Trk.CleanList ibs ts) :
+    Trk.CleanList ibs (Trk.mapAtList id f ts) := by
+  induction ts with
+  | nil => simp [Trk.mapAtList, Trk.CleanList]
+  | cons t ts ih => rw [Trk.mapAtList]; exact ⟨Trk.mapAt_clean ibs id f hf t h.1, ih h.2⟩
+
+theorem Trk.mapData_clean (ibs : Nat) (g : TrkData α S E P → TrkData α S E P) (hg : ∀ d, (g d).temp = d.temp)
+    (t : Trk α S E P) (h : Trk.Clean ibs t) : Trk.Clean ibs (Trk.mapData g t) := by
+  cases t with
+  | node d c p => obtain ⟨hd, hc, hp⟩ := h; exact ⟨by rw [hg, hd], hc, hp⟩
+
+theorem Trk.build_clean (id : Nat) (v : α) (fx : List E) (sends : List (Nat × α)) (persist : Bool) (ibs : Nat) :
+    Trk.Clean ibs (Trk.build (S := S) (P := P) id v fx sends persist ibs) := by
+  simp [Trk.build, Trk.Clean, Trk.CleanList]
+
+theorem Trk.hAddSubTrack_clean (ibs : Nat) (child t : Trk α S E P) (hc : Trk.Clean ibs child)
+    (h : Trk.Clean ibs t) : Trk.Clean ibs (Trk.hAddSubTrack child t) := by
+  cases t with
+  | node d c p =>
+    obtain ⟨hd, hcc, hp⟩ := h
+    exact ⟨hd, hcc, (Trk.cleanList_append ibs p [child]).mpr ⟨hp, hc, trivial⟩⟩
+
+/-- every handle operation on sub-tracks keeps the mixer clean -/
+theorem Mixer.mapTrack_clean (ibs id : Nat) (f : Trk α S E P → Trk α S E P)
+    (hf : ∀ t, Trk.Clean ibs t → Trk.Clean ibs (f t)) (m : Mixer α S E P) (h : Mixer.Clean ibs m) :
+    Mixer.Clean ibs (m.mapTrack id f) :=
+  ⟨h.temp, h.main, Trk.mapAtList_clean ibs id f hf _ h.subs, Trk.mapAtList_clean ibs id f hf _ h.pending,
+    h.sends, h.pendingSends⟩
+
+theorem Mixer.new_clean (v : α) (fx : List E) (ibs : Nat) :
+    Mixer.Clean ibs (Mixer.new (S := S) (P := P) v fx ibs) :=
+  ⟨rfl, rfl, trivial, trivial, by simp [Mixer.new], by simp [Mixer.new]⟩
+
+theorem Mixer.hAddSubTrack_clean (ibs : Nat) (t : Trk α S E P) (ht : Trk.Clean ibs t) (m : Mixer α S E P)
+    (h : Mixer.Clean ibs m) : Mixer.Clean ibs (m.hAddSubTrack t) :=
+  ⟨h.temp, h.main, h.subs, (Trk.cleanList_append ibs _ [t]).mpr ⟨h.pending, ht, trivial⟩, h.sends, h.pendingSends⟩
+
+theorem Mixer.hAddSendTrack_clean (ibs : Nat) (s : SendTrk α E) (hs : s.input = zeros ibs) (m : Mixer α S E P)
+    (h : Mixer.Clean ibs m) : Mixer.Clean ibs (m.hAddSendTrack s) :=
+  ⟨h.temp, h.main, h.subs, h.pending, h.sends, by
+    intro x hx
+    simp only [Mixer.hAddSendTrack, List.mem_append, List.mem_singleton] at hx
+    rcases hx with hx | rfl
+    · exact h.pendingSends x hx
+    · exact hs⟩
+
+theorem Mixer.mapSend_clean (ibs id : Nat) (f : SendTrk α E → SendTrk α E) (hf : ∀ s, (f s).input = s.input)
+    (m : Mixer α S E P) (h : Mixer.Clean ibs m) : Mixer.Clean ibs (m.mapSend id f) := by
+  refine ⟨h.temp, h.main, h.subs, h.pending, ?_, ?_⟩
+  · intro s hs
+    simp only [Mixer.mapSend, List.mem_map] at hs
+    obtain ⟨s0, hs0, rfl⟩ := hs
+    split
+    · rw [hf]; exact h.sends s0 hs0
+    · exact h.sends s0 hs0
+  · intro s hs
+    simp only [Mixer.mapSend, List.mem_map] at hs
+    obtain ⟨s0, hs0, rfl⟩ := hs
+    split
+    · rw [hf]; exact h.pendingSends s0 hs0
+    · exact h.pendingSends s0 hs0
+
 end
 
 end K
